@@ -58,6 +58,11 @@ def effect_paths(prog, f):
                 it.ev(fr, obj, depth)
             if callee.get('repo') and callee['q'].startswith(NS):
                 it.act('CALLS', callee['n'])
+                g = it.prog.funcs.get(callee.get('id'))
+                if g is not None and g.tu['types'][g.sym['ret']].strip() == 'bool':
+                    # the result of a sibling member is a free choice, taken where the call is made (so that `if (F())` and
+                    # `const bool r = F(); ... return r;` describe the same paths)
+                    return 1 if it.choose('CALL:%s@%s' % (callee['n'], n.get('i'))) else 0
             elif callee['n'] in ('push_back', 'append', 'Write', 'write', 'clear'):
                 it.act('CALLS', callee['n'])
             return TOP
